@@ -4,11 +4,14 @@ import z3
 from .state import *  # noqa
 from .vals import *   # noqa
 from .registry import clause_text, clause_active
+import re as _re
+TRACE_FN = _re.compile(r"\b(effect|no_effect|effect_count|effect_result|effect_arg|effect_arg_nth|effect_with_arg|effect_before|at_effect|reached_loop|maybe_effect|no_effect_here|writes_count)\(")
+
 
 SPEC_FUNCS = {"old", "implies", "forall", "exists", "isint", "isstr", "isnone", "isbool", "isref", "ispath", "isfloat",
               "isbytes", "elems", "at", "length", "result", "iff", "count_where", "isclass", "keys", "lookup", "haskey",
               "distinct", "isfile", "isdir", "exists_path", "issymlink", "fs_text", "fs_target", "effect", "no_effect",
-              "effect_count", "fresh", "unchanged", "ite", "seq_eq", "raised", "isfresh", "forall_keys", "forall_val", "isregular", "isabsent", "effect_before", "effect_result", "at_effect", "fs_read", "parses_int", "writes_count", "effect_arg", "bm_self", "p_joinp", "dict_unchanged", "reached_loop", "maybe_effect", "effect_with_arg", "monotone_true", "at_iteration_start", "p_relative_to", "no_effect_here", "effect_arg_nth", "getattr_dyn", "py_equal"}
+              "effect_count", "fresh", "unchanged", "ite", "seq_eq", "raised", "isfresh", "forall_keys", "forall_val", "isregular", "isabsent", "effect_before", "effect_result", "at_effect", "fs_read", "parses_int", "writes_count", "effect_arg", "bm_self", "p_joinp", "dict_unchanged", "reached_loop", "maybe_effect", "forall_obj", "effect_with_arg", "monotone_true", "at_iteration_start", "p_relative_to", "no_effect_here", "effect_arg_nth", "getattr_dyn", "py_equal"}
 
 
 class CallMixin:
@@ -81,6 +84,24 @@ class CallMixin:
             k = self.reg.lookup2(cls, meth, self.functions, self.reg.contracts)
             if k:
                 return self.call_function(st, k, args, kw, lineno)
+        closed = getattr(self.reg, "closed", {})
+        if ty in closed and not (recv.ty or "").startswith("opt:"):
+            targets = {}
+            for sub in closed[ty]:
+                ks = self.reg.lookup2(sub, meth, self.functions, self.reg.contracts)
+                targets.setdefault(ks, []).append(sub)
+            if len(targets) > 1 and None not in targets:
+                self.check_closed_world(ty)
+                out = []
+                for ks, subs in targets.items():
+                    s2 = st.copy()
+                    tags = [self.reg.classtag(c2) for c1 in subs for c2 in self.reg.subclasses(c1)]
+                    s2.assume(z3.Or(*[s2.read("$class", vr(recv.t)) == g for g in tags]))
+                    if not self.feasible(s2):
+                        continue
+                    r2 = V(recv.t, subs[0] if len(subs) == 1 else recv.ty, recv.src)
+                    out += self.call_function(s2, ks, [r2] + args, kw, lineno, recv_ty=subs[0])
+                return out
         k = self.reg.lookup2(ty, meth, self.functions, self.reg.contracts)
         if k is not None:
             return self.call_function(st, k, [recv] + args, kw, lineno, recv_ty=ty)
@@ -184,6 +205,14 @@ class CallMixin:
             self.oblige(f"pre@call {key}: {clause_text(pre)} @L{lineno}", "pre@call", self.spec(st, st, clause_text(pre), binds), st, lineno)
         old = st
         out = []
+        eff0 = c.get("effect")
+        if eff0 and not self.spec_depth and self.effect_guards and eff0 in self.effect_guards:
+            # the guard of a call effect must hold when the call starts (pre-state; the trace already contains the call)
+            pre = st.copy()
+            a0 = [binds[p_] for p_ in (c.get("params") or []) if p_ in binds] or list(args)
+            ent = Effect(eff0, a0, lineno, pre.copy())
+            pre.trace = list(pre.trace) + [ent]
+            self.on_effect(pre, ent)
         outcomes = [("normal", None, c)] if not c.get("never_returns") else []
         for exc, xc in c.get("raises", {}).items():
             outcomes.append(("raise", exc, xc))
@@ -195,7 +224,11 @@ class CallMixin:
                 when = oc.get("when", []) if isinstance(oc, dict) else oc
                 when = [when] if isinstance(when, str) else when
                 for w in when:
-                    s2.assume(self.spec(s2, old, clause_text(w), binds))
+                    self._abstract_trace = bool(TRACE_FN.search(clause_text(w)))
+                    try:
+                        s2.assume(self.spec(s2, old, clause_text(w), binds))
+                    finally:
+                        self._abstract_trace = False
                 if not self.feasible(s2):
                     continue
                 mods = oc.get("modifies", []) if isinstance(oc, dict) else []
@@ -227,17 +260,31 @@ class CallMixin:
             for f_ in {w[0] for w in s2.writes[len(old.writes):]}:
                 if f_ in s2.heap and not f_.startswith("$fs") and f_ != "$class" and f_ != "$dhas":
                     self.alloc_axiom(s2, f_)
+            prop_guards = {nm: z3.Const(fresh_name("occ_" + nm), z3.BoolSort()) for nm in c.get("propagates", [])}
+            self._local_trace = prop_guards
             saved_fr = self._fresh_range
             self._fresh_range = (lo, hi)
             try:
                 for post in posts:
-                    s2.assume(self.spec(s2, old, clause_text(post), b2))
+                    # a sub-term about the callee's own effect trace cannot be evaluated on the caller's trace: while the
+                    # clause is assumed here, every such sub-term is an unconstrained fresh value (sound: assumes less)
+                    self._abstract_trace = bool(TRACE_FN.search(clause_text(post)))
+                    try:
+                        s2.assume(self.spec(s2, old, clause_text(post), b2))
+                    finally:
+                        self._abstract_trace = False
             finally:
                 self._fresh_range = saved_fr
+                self._local_trace = {}
             if eff:
                 eff_args = [binds[p_] for p_ in (c.get("params") or []) if p_ in binds] or list(args)     # in parameter order, keywords included
                 s2.trace.append(Effect(eff, eff_args, lineno, s2.copy(), res=res))
-                self.on_effect(s2, s2.trace[-1])
+                if eff != eff0:
+                    self.on_effect(s2, s2.trace[-1])
+            for nm in c.get("propagates", []):
+                # an effect that may happen inside the callee (declared by its contract): an abstract trace entry whose guard
+                # is the boolean the callee's own clauses about it were translated to
+                s2.trace.append(Effect(nm, [], lineno, None, guard=prop_guards[nm], inner=("*multi*",)))
             if kind == "normal":
                 if not self.feasible(s2):
                     continue
@@ -271,6 +318,12 @@ class CallMixin:
             st.assume(Val.is_RefV(t))
             if ty in ("list", "set", "tuple", "dict"):
                 st.assume(z3.Select(st.field("$class"), vr(t)) == self.reg.classtag(ty))
+                et = elem_type(v.ty) if ty != "dict" else None
+                if et and not getattr(self, "_no_elem_typing", False) and not et.startswith("opt:") and (base_type(et) in self.reg.classes or base_type(et) in ("str", "bytes", "Path")):
+                    # declared element class: every element carries the tag (heap typing, assumed on reads)
+                    seq = z3.Select(st.field("$elems"), vr(t)); j = fresh_int("j")
+                    rec = {"str": Val.is_StrV, "bytes": Val.is_BytesV, "Path": Val.is_PathV}.get(base_type(et), Val.is_RefV)
+                    st.assume(qforall([j], z3.Implies(z3.And(0 <= j, j < z3.Length(seq)), rec(seq[j])), patterns=[seq[j]]))
             elif ty not in ("Mutex",):
                 subs = self.reg.subclasses(ty)
                 st.assume(z3.Or(*[z3.Select(st.field("$class"), vr(t)) == self.reg.classtag(c) for c in subs]))
